@@ -1854,11 +1854,12 @@ class Process:
                     if line:
                         try:
                             name, value = line.split(b': ')
+                            fields[name] = int(value)
                         except ValueError:
+                            # Malformed line (no 'name: value' shape or a
+                            # non-numeric value), see:
                             # https://github.com/giampaolo/psutil/issues/1004
                             continue
-                        else:
-                            fields[name] = int(value)
             if not fields:
                 msg = f"{fname} file was empty"
                 raise RuntimeError(msg)
